@@ -95,12 +95,14 @@ func build(c caseT) (*world, error) {
 	if err != nil {
 		return nil, err
 	}
-	// a signed sibling: source of foreign proofs, foreign signer, injected records
-	w.evil, _, err = n.Delegate("evil.test.", authkit.DelegateOpts{Signed: true, PublishDS: true})
+	// a signed sibling: source of foreign proofs, foreign signer, injected records.  Its name is a TEXTUAL suffix
+	// of the target zone's ("zone.test." ends in "ne.test.") without being an ancestor: an ancestor test has to
+	// compare whole labels
+	w.evil, _, err = n.Delegate("ne.test.", authkit.DelegateOpts{Signed: true, PublishDS: true})
 	if err != nil {
 		return nil, err
 	}
-	w.evil.Add("victim.evil.test. 300 IN A 6.6.6.6")
+	w.evil.Add("victim.ne.test. 300 IN A 6.6.6.6")
 	w.zone.Add(
 		"www.zone.test. 300 IN A 192.0.2.80",
 		"www.zone.test. 300 IN AAAA 2001:db8::80",
@@ -167,9 +169,9 @@ func alterData(rr dns.RR) {
 	case *dns.AAAA:
 		v.AAAA = net.ParseIP("2001:db8::666")
 	case *dns.CNAME:
-		v.Target = "victim.evil.test."
+		v.Target = "victim.ne.test."
 	case *dns.DNAME:
-		v.Target = "evil.test."
+		v.Target = "ne.test."
 	case *dns.DS:
 		b := []byte(v.Digest)
 		if b[0] == 'a' {
@@ -237,7 +239,7 @@ func (w *world) tamperSection(sec []dns.RR, kind string, signerZone *authkit.Zon
 		case "signer":
 			// validly signed -- by a zone that is not an ancestor of the name
 			if sig != nil {
-				sec[si] = authkit.SignRRset(set, "evil.test.", w.evil.Key0(), time.Now().Add(-time.Hour), time.Now().Add(24*time.Hour))
+				sec[si] = authkit.SignRRset(set, "ne.test.", w.evil.Key0(), time.Now().Add(-time.Hour), time.Now().Add(24*time.Hour))
 			}
 		case "expired":
 			if sig != nil && signerZone.Key0() != nil {
@@ -266,7 +268,7 @@ func (w *world) tamperSection(sec []dns.RR, kind string, signerZone *authkit.Zon
 }
 
 func (w *world) foreignProof() []dns.RR {
-	return w.evil.DenialFor("nope.evil.test.", true)
+	return w.evil.DenialFor("nope.ne.test.", true)
 }
 
 func dropProofs(sec []dns.RR) []dns.RR {
@@ -495,9 +497,9 @@ func (w *world) hookFor(pos, kind string, count *int) (*authkit.Server, func(*au
 					}
 				}
 				ns = append(ns,
-					&dns.NSEC{Hdr: dns.RR_Header{Name: "test.", Rrtype: dns.TypeNSEC, Class: dns.ClassINET, Ttl: 300}, NextDomain: "evil.test.",
+					&dns.NSEC{Hdr: dns.RR_Header{Name: "test.", Rrtype: dns.TypeNSEC, Class: dns.ClassINET, Ttl: 300}, NextDomain: "ne.test.",
 						TypeBitMap: []uint16{dns.TypeNS, dns.TypeSOA, dns.TypeRRSIG, dns.TypeNSEC, dns.TypeDNSKEY}},
-					&dns.NSEC{Hdr: dns.RR_Header{Name: "evil.test.", Rrtype: dns.TypeNSEC, Class: dns.ClassINET, Ttl: 300}, NextDomain: "zzz.test.",
+					&dns.NSEC{Hdr: dns.RR_Header{Name: "ne.test.", Rrtype: dns.TypeNSEC, Class: dns.ClassINET, Ttl: 300}, NextDomain: "zzz.test.",
 						TypeBitMap: []uint16{dns.TypeNS, dns.TypeDS, dns.TypeRRSIG, dns.TypeNSEC}})
 				ex.Resp.Rcode = dns.RcodeNameError
 				ex.Resp.Answer = nil
@@ -522,7 +524,7 @@ func (w *world) hookFor(pos, kind string, count *int) (*authkit.Server, func(*au
 				ex.Resp.Rcode = dns.RcodeSuccess
 				ex.Resp.Answer = ans
 				ex.Resp.Ns = []dns.RR{
-					&dns.NSEC{Hdr: dns.RR_Header{Name: "evil.test.", Rrtype: dns.TypeNSEC, Class: dns.ClassINET, Ttl: 300}, NextDomain: "zzz.test.",
+					&dns.NSEC{Hdr: dns.RR_Header{Name: "ne.test.", Rrtype: dns.TypeNSEC, Class: dns.ClassINET, Ttl: 300}, NextDomain: "zzz.test.",
 						TypeBitMap: []uint16{dns.TypeNS, dns.TypeDS, dns.TypeRRSIG, dns.TypeNSEC}}}
 			case "wildrep":
 				// over an empty non-terminal: the zone's genuine wildcard expansion (as any name under
@@ -558,7 +560,7 @@ func (w *world) hookFor(pos, kind string, count *int) (*authkit.Server, func(*au
 			case "fakedname":
 				// the answer becomes a forged CNAME with a junk signature naming the real signer, "justified"
 				// by an unsigned DNAME that the signed zone's PARENT would own, in the authority section
-				tgt := strings.TrimSuffix(strings.ToLower(w.qname), "test.") + "evil.test."
+				tgt := strings.TrimSuffix(strings.ToLower(w.qname), "test.") + "ne.test."
 				forged := &dns.CNAME{Hdr: dns.RR_Header{Name: w.qname, Rrtype: dns.TypeCNAME, Class: dns.ClassINET, Ttl: 300}, Target: tgt}
 				junk := &dns.RRSIG{Hdr: dns.RR_Header{Name: w.qname, Rrtype: dns.TypeRRSIG, Class: dns.ClassINET, Ttl: 300},
 					TypeCovered: dns.TypeCNAME, Algorithm: dns.ECDSAP256SHA256, Labels: uint8(dns.CountLabel(w.qname)), OrigTtl: 300,
@@ -569,7 +571,7 @@ func (w *world) hookFor(pos, kind string, count *int) (*authkit.Server, func(*au
 				}
 				ex.Resp.Rcode = dns.RcodeSuccess
 				ex.Resp.Answer = []dns.RR{forged, junk}
-				ex.Resp.Ns = []dns.RR{&dns.DNAME{Hdr: dns.RR_Header{Name: "test.", Rrtype: dns.TypeDNAME, Class: dns.ClassINET, Ttl: 300}, Target: "evil.test."}}
+				ex.Resp.Ns = []dns.RR{&dns.DNAME{Hdr: dns.RR_Header{Name: "test.", Rrtype: dns.TypeDNAME, Class: dns.ClassINET, Ttl: 300}, Target: "ne.test."}}
 			case "roguesig":
 				// every RRset of the reply is altered and re-signed, signer name = the zone, with the attacker's key
 				resign := func(sec []dns.RR) []dns.RR {
@@ -595,9 +597,9 @@ func (w *world) hookFor(pos, kind string, count *int) (*authkit.Server, func(*au
 				ex.Resp.Answer = resign(ex.Resp.Answer)
 				ex.Resp.Ns = resign(ex.Resp.Ns)
 			case "inject":
-				victim := w.evil.RRset("victim.evil.test.", dns.TypeA)
+				victim := w.evil.RRset("victim.ne.test.", dns.TypeA)
 				ex.Resp.Answer = append(ex.Resp.Answer, victim...)
-				ex.Resp.Answer = append(ex.Resp.Answer, authkit.SignRRset(victim, "evil.test.", w.evil.Key0(), time.Now().Add(-time.Hour), time.Now().Add(24*time.Hour)))
+				ex.Resp.Answer = append(ex.Resp.Answer, authkit.SignRRset(victim, "ne.test.", w.evil.Key0(), time.Now().Add(-time.Hour), time.Now().Add(24*time.Hour)))
 			default:
 				all := func(rr dns.RR) bool { return true }
 				ex.Resp.Answer = w.tamperSection(ex.Resp.Answer, kind, w.zone, all)
